@@ -259,14 +259,15 @@ def redialm(prop, tier, verdict, sample_quick, only=None):
     driver redialm) judged by spec/PRedialM.tla.  Returns coverage entries to merge."""
     import vlib
     wd = vlib.scratch('rdm_' + prop)
-    cfg = 'RedialM_mc2.cfg' if tier == 'thorough' else 'RedialM_mc.cfg'
+    # (the two-call configuration, 126 M states / about half an hour, and the as-is refutations belong to the check of C13)
+    cfg = 'RedialM_mc2.cfg' if (tier == 'thorough' and prop == 'C13') else 'RedialM_mc.cfg'
     r = vlib.tlc_must_hold('RedialM', cfg, workdir=wd, workers=8, timeout=6000)
     known = []
     # the model still knows the repaired defects: with one repair switched off TLC must refute the named invariant
     # (in the quick tier only by the check of C13; the other checks that use the engine rely on it)
     asis = (('CloseLock', 'NoHangG'), ('LostClose', 'CloseEffectiveG'), ('StaleEnd', 'AliveOrEndedG'), ('StaleReader', 'AliveOrEndedG'), ('LateCancel', 'NoHangG'))
     # (LateCancel needs two calls: 17 M states before the refutation, thorough tier only)
-    for fix, inv in (asis if tier == 'thorough' else asis[:4] if prop == 'C13' else ()):
+    for fix, inv in ((asis if tier == 'thorough' else asis[:4]) if prop == 'C13' else ()):
         viol, _, rr = vlib.counterexample('RedialM', 'RedialM_asis_%s.cfg' % fix, var='status', workdir=wd, workers=6, timeout=2400)
         if not viol:
             raise vlib.Broken('RedialM with Fix%s = FALSE no longer violates %s: the model has lost the defect' % (fix, inv))
@@ -303,7 +304,7 @@ def redialm(prop, tier, verdict, sample_quick, only=None):
             'redialm_scenarios': cov['evaluations'], 'redialm_traces': cov['traces_validated_against_impl'], 'redialm_nontrivial': cov['distinct_nontrivial'],
             'redialm_rejected': cov.get('rejected', 0), 'redialm_sample': cov['samples'][-1]}
 
-REDIALM_ASSUME = 'redial machinery at step level: spec/RedialM.tla (reader per connection generation, callers, Close(), redial round under the session lock) is model-checked exhaustively (1 call x 3 generations x 2 losses in the quick tier, 2 calls in the thorough tier); the real code is driven through the schedule families of spec/RedialSched.tla (the loss-handling goroutine parked at each action boundary, callers parked at call.stored / write.refused, calls / Close() / server back / rejecting dial hook issued meanwhile) over loopback TCP and judged at quiescence by spec/PRedialM.tla; schedules that the hold points cannot force (the open observations O1-O3 of RedialM.tla) are not replayed'
+REDIALM_ASSUME = 'redial machinery at step level: spec/RedialM.tla (reader per connection generation, callers, Close(), redial round under the session lock) is model-checked exhaustively (1 call x 3 generations x 2 losses; 2 calls in the thorough tier of C13); the real code is driven through the schedule families of spec/RedialSched.tla (the loss-handling goroutine parked at each action boundary, callers parked at call.stored / write.refused, calls / Close() / server back / rejecting dial hook issued meanwhile) over loopback TCP and judged at quiescence by spec/PRedialM.tla; schedules that the hold points cannot force (the open observations O1-O3 of RedialM.tla) are not replayed'
 
 def c13(prop, tier, verdict):
     def cl(line, s):
